@@ -117,6 +117,29 @@ theorem noLateFrom_flatMap (emit : Msg → List Msg) (hw : ∀ t, emit (.wm t) =
       intro q hq e he w hw'
       exact hn.1 e (by rw [← het q hq]; exact he) w hw'
 
+theorem okAfter_iff (s : List Int) (r : Rec) : okAfter s r ↔ okAfterB s r = true := by
+  simp only [okAfter, okAfterB]
+  cases r.et with
+  | none => simp
+  | some e => simp
+
+theorem noLateFrom_iff (ms : List Msg) : ∀ s, NoLateFrom s ms ↔ noLateFromB s ms = true := by
+  induction ms with
+  | nil => intro s; simp [NoLateFrom, noLateFromB]
+  | cons m ms ih =>
+    intro s
+    cases m with
+    | wm t => simp only [NoLateFrom, noLateFromB, ih]
+    | data r => simp only [NoLateFrom, noLateFromB, ih, okAfter_iff, Bool.and_eq_true]
+
+theorem mono_iff_B (l : List Int) : Mono l ↔ monoB l = true := by
+  induction l with
+  | nil => simp [Mono, monoB]
+  | cons a as ih =>
+    cases as with
+    | nil => simp [Mono, monoB]
+    | cons b bs => simp only [Mono, monoB, ih, Bool.and_eq_true, decide_eq_true_eq]
+
 /-! ### the buffer specification -/
 theorem dataOf_eq (l : List (Int × Rec)) : dataOf l = (l.map (·.2)).map .data := by
   simp [dataOf, List.map_map, Function.comp_def]
